@@ -25,7 +25,8 @@ func ZZ_C17_S_SensorBinding() {
 	var inputs [3][]string
 	for c := 0; c < 3; c++ {
 		n := zzv.Choice(fmt.Sprintf("inputs%d", c), 4)
-		ctrl := &hwmon.HwMonController{Name: zzSChips[c].platform, Platform: zzSChips[c].platform, Path: zzSChips[c].path, Sensors: map[int]*sensors.HwmonSensor{}}
+		dir := zzv.TempDir(fmt.Sprintf("hwmon%d", c))
+		ctrl := &hwmon.HwMonController{Name: zzSChips[c].platform, Platform: zzSChips[c].platform, Path: dir, Sensors: map[int]*sensors.HwmonSensor{}}
 		for i := 0; i < n; i++ {
 			k := zzv.Int(fmt.Sprintf("chip%d.index", c))
 			zzv.Assume(k >= 1)
@@ -34,7 +35,7 @@ func ZZ_C17_S_SensorBinding() {
 				zzv.Assume(o != k)
 			}
 			idx[c] = append(idx[c], k)
-			in := fmt.Sprintf("%s/temp_slot%d_input", zzSChips[c].path, i) // the file name only has to identify the input
+			in := fmt.Sprintf("%s/temp_slot%d_input", dir, i) // the file name only has to identify the input
 			zzv.FilePut(in, true, 42000)
 			inputs[c] = append(inputs[c], in)
 			ctrl.Sensors[k] = &sensors.HwmonSensor{Label: "t", Index: k, Input: in}
@@ -73,4 +74,76 @@ func ZZ_C17_S_SensorBinding() {
 		right = zzv.And(right, zzv.Implies(k == want, hs.Input == inputs[target][i]))
 	}
 	zzv.Assert(right, "S.bound_to_named_chip_and_index")
+}
+
+//zzv:bound S2 = real initializeSensors with two hwmon sensor entries (each naming one of two chips and an index 1..8; each chip with 0..2 temperature inputs on symbolic distinct indices, both enumeration orders): start-up fails exactly when at least one entry names a device that does not exist, and on success each entry is bound to the input of its own chip and index - never to the device another entry resolved to
+
+func ZZ_C17_S2_TwoSensorEntries() {
+	var idx [2][]int
+	var inputs [2][]string
+	byChip := make([]*hwmon.HwMonController, 2)
+	for c := 0; c < 2; c++ {
+		n := zzv.Choice(fmt.Sprintf("inputs%d", c), 3)
+		dir := zzv.TempDir(fmt.Sprintf("hwmon%d", c))
+		ctrl := &hwmon.HwMonController{Name: zzSChips[c].platform, Platform: zzSChips[c].platform, Path: dir, Sensors: map[int]*sensors.HwmonSensor{}}
+		for i := 0; i < n; i++ {
+			k := zzv.Int(fmt.Sprintf("chip%d.index", c))
+			zzv.Assume(k >= 1)
+			zzv.Assume(k <= 8)
+			for _, o := range idx[c] {
+				zzv.Assume(o != k)
+			}
+			idx[c] = append(idx[c], k)
+			in := fmt.Sprintf("%s/temp_slot%d_input", dir, i)
+			zzv.FilePut(in, true, 42000)
+			inputs[c] = append(inputs[c], in)
+			ctrl.Sensors[k] = &sensors.HwmonSensor{Label: "t", Index: k, Input: in}
+		}
+		byChip[c] = ctrl
+	}
+	list := []*hwmon.HwMonController{byChip[0], byChip[1]}
+	if zzv.Choice("order", 2) == 1 {
+		list = []*hwmon.HwMonController{byChip[1], byChip[0]}
+	}
+	ids := []string{"zztempA", "zztempB"}
+	var target [2]int
+	var want [2]int
+	configuration.CurrentConfig.Sensors = nil
+	for e := 0; e < 2; e++ {
+		target[e] = zzv.Choice("namedChip."+ids[e], 2)
+		want[e] = zzv.Int("index." + ids[e])
+		zzv.Assume(want[e] >= 1)
+		zzv.Assume(want[e] <= 8)
+		configuration.CurrentConfig.Sensors = append(configuration.CurrentConfig.Sensors,
+			configuration.SensorConfig{ID: ids[e], HwMon: &configuration.HwMonSensorConfig{Platform: zzSChips[target[e]].platform, Index: want[e]}})
+	}
+
+	err := initializeSensors(list)
+
+	allExist := true
+	for e := 0; e < 2; e++ {
+		exists := false
+		for _, k := range idx[target[e]] {
+			exists = zzv.Or(exists, k == want[e])
+		}
+		allExist = zzv.And(allExist, exists)
+	}
+	zzv.RecordB("started", err == nil)
+	zzv.Assert((err == nil) == allExist, "S2.error_iff_some_entry_names_a_missing_device")
+	if err != nil {
+		return
+	}
+	for e := 0; e < 2; e++ {
+		s, ok := sensors.GetSensor(ids[e])
+		zzv.Assert(ok, "S2.sensor_registered")
+		if !ok {
+			return
+		}
+		hs := s.(*sensors.HwmonSensor)
+		right := true
+		for i, k := range idx[target[e]] {
+			right = zzv.And(right, zzv.Implies(k == want[e], hs.Input == inputs[target[e]][i]))
+		}
+		zzv.Assert(right, "S2.each_entry_bound_to_its_own_device")
+	}
 }
